@@ -464,10 +464,39 @@ def gen_case(rng, tier):
     r = rng.random()
     if r < 0.05:
         return gen_builtin(rng)
+    if r < 0.07:
+        return {'kind': 'rebind', 'marks': [f'm{rng.randrange(10 ** 9)}' for _ in range(rng.choice([2, 3]))]}
     return gen_binding(rng) if r < 0.65 else gen_table(rng)
 
 
+def run_rebind(case):
+    """the target named by a function node is whatever the name is bound to when the node is evaluated: one name, re-bound between
+    builds (plugins registering themselves, a module reloaded), must reach the callable of the moment"""
+    import verif_targets
+    from awesomeyaml.config import Config
+    vio = []
+    for m in case['marks']:
+        def current(*a, _m=m, **k):
+            return ('rebound', _m, a, tuple(sorted(k.items())))
+        verif_targets.rebound = current
+        o = lib.outcome(lambda: Config.build('x: !call:verif_targets.rebound [1]\ny: !bind:verif_targets.rebound {k: 2}\n', raw_yaml=True))
+        if o[0] == 'err':
+            vio.append({'mech': 'rebound-target-fails', 'what': f'build {lib.describe(o)}'})
+            break
+        got = (o[1]['x'], o[1]['y']())
+        want = (('rebound', m, (1,), ()), ('rebound', m, (), (('k', 2),)))
+        if got != want:
+            vio.append({'mech': 'stale-target-called', 'what': f'verif_targets.rebound is bound to the function marked {m!r} but the nodes reached {got!r}'})
+            break
+    res = {'status': 'violation' if vio else 'ok', 'nontrivial': True, 'feats': ['target_name_rebound_between_builds']}
+    if vio:
+        res['violations'] = vio
+    return res
+
+
 def run(case):
+    if case['kind'] == 'rebind':
+        return run_rebind(case)
     if case['kind'] == 'builtin':
         return run_builtin(case)
     return run_binding(case) if case['kind'] == 'binding' else run_table(case)
